@@ -7,6 +7,7 @@
     the call site knows as hypotheses.  `nextCore_ok`: `OptimiserOk → StepsOk`.
 -/
 import LzmaVerif.Proofs.EncNormalLoop
+import LzmaVerif.Proofs.EncNormalPrice
 
 namespace LzmaVerif.EncNormal
 open LzmaVerif Mf Lzma Rc EncFast EncPrices
@@ -16,7 +17,7 @@ open LzmaVerif.Mf.Hc4 (Eqs byteAt_lt extendMatch_spec)
     position 0 -/
 def Cand1 (d : Array UInt8) (p : Nat) (c : Coder) (o : Opt) : Prop :=
   o.optPrev = 0 ∧ o.prev1IsLiteral = false ∧
-    (o.backPrev = -1 ∨ (o.backPrev = 0 ∧ byteAt d p = byteAt d (p - (c.rep0 + 1))))
+    (o.backPrev = -1 ∨ (o.backPrev = 0 ∧ byteAt d p = byteAt d (p - (c.rep0 + 1)))) ∧ o.price ≤ 1152
 
 /-- every element of `rep_lens` is 0 or the length of a real repetition at `reps[i]` -/
 def LensOk (d : Array UInt8) (p avail : Nat) (c : Coder) (lens : List Nat) : Prop :=
@@ -29,7 +30,7 @@ def OptimiserOk {σ : Type} {F : Finder σ} {d : Array UInt8} {dict : Nat} (FS :
     (lens : List Nat) (mainLen optEnd : Nat),
     p < d.size → 2 ≤ min (d.size - p) 273 → opts.size = P.opts → RepsLt c p → RepsLt c dict →
     FS.R mf → FS.pos mf = p + 1 →
-    (∀ m ∈ ms, ValidMatch d dict p (min 273 (d.size - p)) m) →
+    (∀ m ∈ ms, ValidMatch d dict p (min 273 (d.size - p)) m) → lensIncreasing ms = true →
     LensOk d p (min (d.size - p) 273) c lens →
     mainLen = mainLenOf ms →
     (∀ i, i < 4 → lens.getD i 0 < nice) → (ms = [] ∨ mainLen < nice) →
@@ -104,10 +105,15 @@ theorem initOpt1_ok (E : Env) (p : Nat) (c : Coder) (opts : Opts) (h1 : 1 < opts
   simp only
   split
   · next hsr =>
+    have hlt := hsr.2
+    rw [oat_modify_self _ _ _ h1] at hlt
     rw [oat_modify_self _ _ _ (by rw [Array.size_modify]; exact h1)]
-    exact ⟨⟨rfl, rfl, Or.inr ⟨rfl, hsr.1.symm⟩⟩, by simp only [Array.size_modify]⟩
+    refine ⟨⟨rfl, rfl, Or.inr ⟨rfl, hsr.1.symm⟩, ?_⟩, by simp only [Array.size_modify]⟩
+    have := litPrice_le E.pr E.ps (byteAt E.d p) (byteAt E.d (p - (c.rep0 + 1))) (byteAt E.d (p - 1)) p c.state
+    simp only [Opt.set1] at hlt ⊢
+    omega
   · rw [oat_modify_self _ _ _ h1]
-    exact ⟨⟨rfl, rfl, Or.inl rfl⟩, by simp only [Array.size_modify]⟩
+    exact ⟨⟨rfl, rfl, Or.inl rfl, litPrice_le _ _ _ _ _ _ _⟩, by simp only [Array.size_modify]⟩
 
 /-- `rep_best` holds a maximal element of `rep_lens` -/
 theorem repBest_max (lens : List Nat) (i : Nat) (hi : i < lens.length) :
@@ -136,7 +142,7 @@ theorem repBest_max (lens : List Nat) (i : Nat) (hi : i < lens.length) :
 theorem nextCore_ok {σ : Type} {F : Finder σ} {d : Array UInt8} {dict : Nat}
     (FS : FinderSound F d dict 273) (P : NormalParams) (hP : P.ok) (pr : Params) (nice : Nat) (hn : 1 ≤ nice)
     (hO : OptimiserOk FS P pr nice) : StepsOk FS P pr nice := by
-  intro ps pt p c opts mf ms hp hos hrp hrd hR hpos hms
+  intro ps pt p c opts mf ms hp hos hrp hrd hR hpos hms hmsinc
   obtain ⟨hmin, hmax, hreps, hopts2, _⟩ := hP
   -- a one-byte step that leaves the finder where it is
   have h1 : ∀ (s : Sym) (o : Opts) (q : PriceSt), o.size = P.opts → SymAt d dict p c s 1 →
@@ -192,7 +198,7 @@ theorem nextCore_ok {σ : Type} {F : Finder σ} {d : Array UInt8} {dict : Nat}
             at hc1 hsz ⊢
           split
           · -- `opt_end < MATCH_LEN_MIN`: literal or short rep
-            obtain ⟨_, _, hb⟩ := hc1
+            obtain ⟨_, _, hb, _⟩ := hc1
             rcases hb with hb | ⟨hb, hbyte⟩
             · refine h1 _ _ _ hsz (Or.inl ⟨?_, rfl⟩)
               simp only [symOf, hb, if_true]
@@ -200,7 +206,7 @@ theorem nextCore_ok {σ : Type} {F : Finder σ} {d : Array UInt8} {dict : Nat}
               simp only [symOf, hb, hreps]
               rw [if_neg (by decide), if_pos (by decide), if_pos trivial]
           · next hoe =>
-            refine hO ps pt p c opts1 mf ms lens _ _ hp hav2 hsz hrp hrd hR hpos hms hlens rfl hlt ?_ rfl (by omega) hc1
+            refine hO ps pt p c opts1 mf ms lens _ _ hp hav2 hsz hrp hrd hR hpos hms hmsinc hlens rfl hlt ?_ rfl (by omega) hc1
             by_cases hne : ms = []
             · exact Or.inl hne
             · right
